@@ -50,6 +50,7 @@ Require Import Grits.spec.Rename Grits.proofs.RenameTypes Grits.proofs.RenameSub
                Grits.proofs.RenameKeys Grits.proofs.C14Main Grits.proofs.C14Closed Grits.proofs.C14Examples
                Grits.proofs.RenameSimT Grits.proofs.RenameAlpha Grits.proofs.C14Alpha Grits.proofs.C14Decl.
 Require Grits.proofs.TcDeclRename Grits.Tc.
+Require Grits.spec.Alpha Grits.spec.AlphaEq Grits.proofs.AlphaSubst Grits.proofs.AlphaFree Grits.proofs.AlphaStep Grits.proofs.AlphaExamples.
 Require Grits.spec.RtTyping Grits.proofs.RtTheorems Grits.proofs.RtTcSyn Grits.proofs.DeterminismAll.
 Require Grits.spec.SynOk Grits.proofs.TypingVerdict Grits.proofs.DeclPerm Grits.proofs.VerdictInvariant.
 Require Import Coq.Sorting.Permutation.
@@ -232,6 +233,46 @@ Theorem example_runs : run_text Async pick_first ex_text = Some (KQuiescent, ["b
                        run_text Async pick_first ex_text_renamed = Some (KQuiescent, ["avant"; "apres"]).
 Proof. exact ex_run_async. Qed.
 
+(* ---- general alpha-equivalence inside one declaration (spec/AlphaEq.v: `aeq`, bodies up to channels).
+   PARTIAL: the statement for whole runs is still the Definition `RenameRun.run_alpha_invariant`.  Proved:
+   A1 — Form.Substitute respects aeq (an entry anywhere in the correspondence; the substitution may stop
+   earlier on one side); FreeNames respects aeq; A2 for the transitions of ONE process that do not consult
+   the function table or duplicate: reacting to a message (receive, case, wait, shift, forward / drop
+   requests, positive forwards) and the internal transitions cut, drop, split, print.
+   Missing for `run_alpha_invariant`: the call transition (function tables related by aeq on parameters),
+   DUP (`aeq_subst_chan` and `aeq_free_closed` are its ingredients), gluing into `step` / `exec_run`
+   (as RenameAlpha.step_rel does for per-declaration maps), and the checker (A3). *)
+Theorem alpha_subst_gen_partial : forall X Y c e2, chan X = None -> chan Y = None -> ident X <> "" -> ident Y <> "" ->
+  AlphaEq.isvar c = false -> ident c = "" ->
+  forall f g e1 bl br, AlphaSubst.modes X Y e1 bl br ->
+    AlphaEq.aeq (e1 ++ (ident X, ident Y) :: e2) f g -> AlphaEq.aeq (e1 ++ e2) (AlphaSubst.msub bl X c f) (AlphaSubst.msub br Y c g).
+Proof. intros X Y c e2 H1 H2 H3 H4 H5 H6. exact (proj1 (AlphaSubst.aeq_subst_gen X Y c e2 H1 H2 H3 H4 H5 H6)). Qed.
+
+Theorem alpha_subst_partial : forall e X Y c c' k k', AlphaEq.bnd X Y -> AlphaEq.isvar c = false -> nn' c' = nn' c ->
+  AlphaEq.aeq ((ident X, ident Y) :: e) k k' -> AlphaEq.aeq e (nf' (subst X c k)) (nf' (subst Y c' k')).
+Proof. exact AlphaSubst.aeq_subst_top. Qed.
+
+Theorem alpha_subst_chan_partial : forall old new f g e, initialized old = true -> initialized new = true -> ident new = "" ->
+  AlphaEq.aeq e f g -> AlphaEq.aeq e (subst old new f) (subst old new g).
+Proof. intros old new f g e H1 H2 H3. exact (proj1 (AlphaSubst.aeq_subst_chan old new H1 H2 H3) f g e). Qed.
+
+Theorem alpha_free_names_partial : forall f g, AlphaEq.aeq [] f g -> free_names f = free_names g.
+Proof. exact AlphaFree.aeq_free_closed. Qed.
+
+Theorem alpha_on_message_partial : forall self q q' m, pr_provs q' = pr_provs q -> pr_next q' = pr_next q ->
+  AlphaEq.aeq [] (pr_body0 q) (pr_body0 q') -> AlphaStep.mgood m ->
+  AlphaStep.rrelA (on_message self q m) (on_message self q' m).
+Proof. exact AlphaStep.on_message_A. Qed.
+
+Theorem alpha_internal_partial : forall md F F' self q q', pr_provs q' = pr_provs q -> pr_next q' = pr_next q ->
+  AlphaEq.aeq [] (pr_body0 q) (pr_body0 q') -> AlphaStep.is_callA (pr_body0 q) = false ->
+  AlphaStep.rrelA (internal_effect md F self q) (internal_effect md F' self q').
+Proof. exact AlphaStep.internal_effect_A. Qed.
+
+(* non-vacuity: two sequential binders of one declaration sharing an identifier vs two identifiers *)
+Theorem example_alpha_bodies : AlphaExamples.bodies_aeq AlphaExamples.seq_text AlphaExamples.seq_text_alpha.
+Proof. exact AlphaExamples.seq_aeq. Qed.
+
 Print Assumptions verdict_invariant.
 Print Assumptions verdict_invariant_strong.
 Print Assumptions verdict_invariant_closed.
@@ -264,3 +305,10 @@ Print Assumptions tc_form_sg.
 Print Assumptions example_renamed_ast.
 Print Assumptions example_admissible.
 Print Assumptions example_runs.
+Print Assumptions alpha_subst_gen_partial.
+Print Assumptions alpha_subst_partial.
+Print Assumptions alpha_subst_chan_partial.
+Print Assumptions alpha_free_names_partial.
+Print Assumptions alpha_on_message_partial.
+Print Assumptions alpha_internal_partial.
+Print Assumptions example_alpha_bodies.
